@@ -19,17 +19,17 @@ TOL = 1e-9
 
 
 def bounds(tier):
-    return dict(quick=dict(degrees='1..4', K='K(p,2,4) (p<=3: K(p,3,4))', generate='p<=7, n<=p+8'),
-                thorough=dict(degrees='1..7', K='K(p,3,8) for p<=3, K(p,3,4) p=4..5, K(p,2,4) p=6..7',
-                              generate='p<=7, n<=p+8'))[tier]
+    return dict(quick=dict(degrees='1..5', K='K(1,3,8) K(2,3,8) K(3,3,4) K(4,2,4) K(5,2,4)', generate='p<=7, n<=p+8; p<=3: n<=p+130'),
+                thorough=dict(degrees='1..7', K='K(p,3,8) for p<=4, K(5,2,8), K(6,3,4), K(7,2,4)',
+                              generate='p<=7, n<=p+130'))[tier]
 
 
 def gen_cases(tier, seed):
     cases = []
     if tier == 'quick':
-        plan = [(1, 3, 4), (2, 3, 4), (3, 2, 4), (4, 2, 4)]
+        plan = [(1, 3, 8), (2, 3, 8), (3, 3, 4), (4, 2, 4), (5, 2, 4)]
     else:
-        plan = [(1, 3, 8), (2, 3, 8), (3, 3, 8), (4, 3, 4), (5, 3, 4), (6, 2, 4), (7, 2, 4)]
+        plan = [(1, 3, 8), (2, 3, 8), (3, 3, 8), (4, 3, 8), (5, 2, 8), (6, 3, 4), (7, 2, 4)]
     for p, B, G in plan:
         mm = p if p <= 4 else None
         for kv in A.clamped_kvs(p, B, G, mm):
@@ -39,7 +39,10 @@ def gen_cases(tier, seed):
             for kv in A.unclamped_kvs(p, n):
                 cases.append(dict(kind='kv', p=p, kv=kv, unclamped=True))
     for p in range(1, 8):
-        for n in range(p + 1, p + 9):
+        # every count up to p+8, and every count up to p+130 for the degrees most used (evenly spaced knots are computed in
+        # floating point: the end knots must still be exact for every count)
+        top = p + 130 if (p <= 3 or tier == 'thorough') else p + 8
+        for n in range(p + 1, top + 1):
             for clamped in (True, False):
                 cases.append(dict(kind='generate', p=p, n=n, clamped=clamped))
     for p, B, G in [(2, 2, 4), (3, 2, 4)]:
@@ -177,6 +180,10 @@ def _judge_generated(case, ctx, kv, feats):
     else:
         exp = [F(i, n + p) for i in range(n + p + 1)]
     ctx.close('C03.generate.values', kv, exp, 1e-15, 1.0, case, feats)
+    if len(kv) == len(exp):
+        ctx.check('C03.generate.exact_ends', kv[0] == 0.0 and kv[-1] == 1.0 and
+                  (not clamped or (all(x == 0.0 for x in kv[:p + 1]) and all(x == 1.0 for x in kv[-(p + 1):]))), case, feats,
+                  'end knots exactly 0.0 and 1.0', [kv[:p + 2], kv[-(p + 2):]])
     if len(kv) == len(exp):
         U = [F(x) for x in kv]
         mult0 = sum(1 for x in U if x == U[0])
